@@ -67,9 +67,9 @@ class C11(Prop):
     level_text = ("Coq theorems (model = the editing API over a store of trees with re-based handles; variant `fixed` = /repo with the eight C11 fixes and proposed_fixes/C11-10, in-place splices): "
                   "(1) for ANY well-formed field in the sense of C10 (RelGrammar.wf_rfield: arbitrary white space in every slot, newlines, empty entries, trailing comma, substitution variables) "
                   "and the empty field, for EVERY in-range history of the twelve operations push, insert, replace, remove_entry, Entry::push, Entry::replace, remove_relation, set_version, "
-                  "drop_constraint, set_archqual, set_architectures, add_profile (operands built by Entry::from(vec![Relation::new(..)]) / Relation::new, identifier texts), issued through "
+                  "drop_constraint, set_archqual, set_architectures, add_profile (operands built by Entry::from(vec![Relation::new(..)]) / Relation::new; BUILT operands are made of identifier texts [A-Za-z0-9.+~-] — names, qualifiers, profile names and also versions and architecture names, so a version with an epoch `1:2.0` and a negated architecture `!armel` are outside the theorems about built operands: C11_built_operand_domain_witness; parsed operands have no such restriction), EVERY INDEX in range — where the API unwraps a position (replace, remove_entry, Entry::replace, remove_relation) an out-of-range index is a documented PANIC of the code, which the model reproduces (C11_out_of_range_panics), not a modelled gap —, issued through "
                   "handles obtained from the current root: no panic; after every step the root holds the tree of the layout the abstract operation a_op (model/RelLive.v) produces, that layout is "
-                  "well-formed, its content is the list-of-lists model applied to the content before, substitution variables and all entries the operation does not name are untouched, and the printed "
+                  "well-formed, its content is the list-of-lists model applied to the content before, substitution variables and all entries the operation does not name are untouched, the SEPARATORS follow the slot model of RelEditSpec.v (the commas cut the field into slots holding an entry, a substitution variable or nothing: no slot ever holds two items, a new entry gets exactly one separator, an appended one fills a trailing empty slot, a removed one takes its separator along, nothing else moves; the count of superfluous separators never grows: C11_seps_never_grow), and the printed "
                   "text reads back (parse_relaxed without error; strict from_str when there is no substitution variable) to exactly the list model's content, through C10 "
                   "(C11_any_step, C11_any_history, C11_any_history_from_text, C11_any_reread); "
                   "(1') for constructor-built fields the same with the result spelled out as the canonical tree and text of the list model and read by the accessor model `structure` (C11_history_constructed_reread); "
@@ -83,8 +83,8 @@ class C11(Prop):
                   "reading says, positions shifted by inserts and removals in front of it (C11_handles_step, C11_handles_history, C11_handles_history_field, C11_handles_entry, C11_handles_relation); "
                   "the pre-fix code refutes it (C11_in_place_refuted, C11_in_place_relation_refuted). "
                   "(5) C11_full ITSELF (the property as stated in RelEditSpec.v) is a theorem, C11_full_theorem: from ANY text read without error whose accessors do not panic "
-                  "(structure = Ok; needed: C11_full_domain_witness), every in-range history of the twelve operations with well-formed operands built by Relation::new or RelationBuilder: "
-                  "no panic, the root holds exactly the list model's field, substitution variables keep their text, the printed text is read again without error to that same field — "
+                  "(RelEdit.structure_d = Ok — the accessors WITH debversion's parse of every version text: every operator is one of the five and every version text is a debversion::Version; both needed: C11_full_domain_witness, C11_full_version_domain_witness; C11_full_raw_theorem is the same with version texts as written), every in-range history of the twelve operations with well-formed operands built by Relation::new or RelationBuilder: "
+                  "no panic, the root holds exactly the list model's field, substitution variables keep their text, the separators are the slot model's (a conjunct of C11_full: without fix C11-02 or C11-07 every other conjunct holds and this one fails, C11_full_needs_append_sep / _first_substvar), the printed text is read again without error to that same field — "
                   "through C10's image theorem (every error-free text is the rendering of a liberal layout) and the liberal live layouts of model/RelLiveAll.v (the inside of a relation's parts is "
                   "opaque to the edits); the single-step / history / re-read / handle theorems of that development are C11_all_*; one correction of the statement (not of the code): "
                   "operand records with architectures or profiles but no qualifier are built with RelationBuilder (C11_builder_operand_witness). "
@@ -103,10 +103,11 @@ class C11(Prop):
                "hand transcription of the editing functions of debian-control/src/lossless/relations.rs into coq/model/RelEdit.v, tied to the code by the rel-edit stream on every run",
                "rowan 0.16.1 (red layer: detach/attach/splice_children/replace_with/index/iteration, mutable vs immutable roots; green layer: splice_children/replace_child) as modelled by the store of RelEdit.v",
                "coq/model/RelParse.v, RelLex.v (the reader, proved total and conservative in C09's cone)",
-               "debversion::Version Display/FromStr taken as the identity on the version texts the generators use",
+               "debversion::Version FromStr + Display as transcribed in coq/model/RelAcc.v debversion_roundtrip (C10's cone), used by RelEdit.structure_d / version_operand",
                "extraction (ExtrOcamlBasic only), OCaml runner, Rust harness, Python driver and oracle"]
-    assumptions = ["the theorems are about the code with proposed_fixes/C11-*.patch applied (the model's `fixed` variant, including the pending C11-10-in-place-splice.patch); on the code without them the check reports the violations (without C11-10: the histories through handles never obtained again)",
-                   "indices within range where the API unwraps (replace, remove_entry, Entry::replace, remove_relation): out-of-range indices panic, in the model as in the code"]
+    assumptions = ["the theorems are about the code with proposed_fixes/C11-*.patch applied (the model's `fixed` variant; all of them are committed in /repo: C11-01..08 as 40d0dc3..12709db, C11-10-in-place-splice as 5517d72); on the code without them the check reports the violations (without C11-10: the histories through handles never obtained again)",
+                   "indices within range where the API unwraps (replace, remove_entry, Entry::replace, remove_relation): out-of-range indices panic, in the model as in the code — a theorem (C11_out_of_range_panics), a documented behaviour of the API and not a gap of the model",
+                   "in the handle theorems (C11_handles_*, C11_all_handles_*) the separator conjunct is field_shape only (the root is the tree of a well-formed layout); the slot history is stated for the histories issued through fresh handles"]
     case_ms = 20000
 
     extra_coverage = {"model_variant": MODEL_VARIANT}
